@@ -31,78 +31,92 @@ Theorem C19_image_stable : forall (A : Type) (p : wprog A),
 Proof. exact image_stable. Qed.
 
 (** Copying through the public API (slice wapi, [Proofs/WapiCopy.v]).  P = [new guid; tops;
-    finalize] is a complete program of acceptable calls (Props/C01.v: [C01_api_accepts]) that ran
-    to the final state [st]; the reader reports the metadata
-    [m' = reader_view (fill_meta (ws_meta st))] and, for every point cloud item of [is], its points
-    ([C10_accepted_reads_back]).  The copying client issues [copy_calls m' points]: [new] with the
-    reported GUID, coordinate metadata, creation time, [register_extension] for every extension,
-    and per point cloud [add_pointcloud] with the reported GUID and prototype, every one of the
-    17 setters with the reported value (both limits always: [None] clears the default as the
-    original did), [add_point] for every raw point, [finalize], drop; then [finalize].
+    finalize] is a complete program of acceptable calls (Props/C01.v: [C01_api_accepts]) - point
+    clouds, images with any representations and masks, free-standing blobs - that ran to the final
+    state [st]; the reader reports the metadata [m' = reader_view (fill_meta (ws_meta st))], for
+    every point cloud item of [is] its points ([C10_accepted_reads_back]), and for every image the
+    bytes of the blobs of its representations.  The copying client (harness/src/ext_copy.rs) issues
+    [copy_calls m' points bytes]: [new] with the reported GUID, coordinate metadata, creation time,
+    [register_extension] for every extension; per point cloud [add_pointcloud] with the reported
+    GUID and prototype, every one of the 17 setters with the reported value (both limits always),
+    [add_point] for every raw point, [finalize], drop; per image [add_image] with the reported GUID,
+    a setter for every field that is present, the visual reference and then the projection with
+    their bytes and masks, [finalize], drop; then [finalize].
     Then: the copy P2 is again a complete program of acceptable calls, every call of it returns Ok,
     its final metadata equals the original's ([content_view]), its point cloud items (types and
-    points) are the original's, and the calls a client issues from the copy are P2 itself:
-    copying the copy is the identity.
+    points) are the original's, the image bytes of the copy are those of the original, and the calls
+    a client issues from the copy are P2 itself: copying the copy is the identity.
     [content_view st] = root, extensions, point clouds and images as written (float texts filled
-    in) with the FILE OFFSETS of the point clouds erased - nothing else is left out.  Blobs added
-    with [add_blob] that no image refers to are not copied: the reader does not report them.
-    Remaining hypotheses ([_partial]):
-    - [Forall not_im tops]: programs WITHOUT IMAGES (the abstraction of the state machine used in
-      the proof does not track the bytes of image blobs);
+    in) with the FILE OFFSETS of the point clouds and of the image blobs erased - nothing else is
+    left out.  Blobs added with [add_blob] that no image refers to, and image blobs replaced by a
+    later call, are not copied: the reader does not report them.
+    [bytes = program_image_bytes L P]: for every finished image, in order, the bytes handed to the
+    image writer for its final visual reference and projection - a function of the program (the
+    ghost of the pure metadata semantics [arun] of Proofs/WapiAccept.v).  [ghost_ok] in the
+    conclusion says they fit the blobs the image declares (presence, lengths, masks); that they
+    are the bytes [E57Reader::blob] returns for those descriptors is [C19_copy_image_bytes] with
+    [C19_blob_in_reads] below.
+    Remaining hypotheses:
     - Display prints every NaN alike, whatever sign and payload ([fmt64 (canon64 b) = fmt64 b]):
       the reader gets the canonical NaN back, the copy must print the same text;
-    - [proto_canonical]: scale and offset of scaled integer records (they enter the Cartesian /
-      spherical bounds the copy recomputes) and the limits of float records (the prototype check
-      compares them; since /repo eaf8fc6 an accepted prototype has no NaN there at all) are not
-      NaNs with a payload. *)
+    - [scaled_canonical]: scale and offset of scaled integer records (they enter the Cartesian /
+      spherical bounds the copy recomputes) are not NaNs with a payload.  The writer does not
+      check them: a NaN scale or offset is accepted and written.  (The same about the limits of
+      float records is no longer assumed: an accepted prototype has no NaN there since /repo
+      eaf8fc6, [canonical_of_valid]; programs with images are no longer excluded.) *)
 From E57 Require Import Base.Floats Model.Meta Model.MetaFile Model.XmlTree Model.XmlGen Model.WriterApi Model.WriterFull
   Spec.XgWriterOk Spec.XeMetaOk Proofs.C04Compose
-  Proofs.WapiInv Proofs.WapiFullProg Proofs.WapiFullMeta Proofs.WapiFullInv Proofs.WapiFull Proofs.WapiAccept Proofs.WapiCopy.
+  Proofs.WapiInv Proofs.WapiFullProg Proofs.WapiFullMeta Proofs.WapiFullInv Proofs.WapiFull Proofs.WapiAccept Proofs.WapiCopy
+  Proofs.WapiCopyBytes.
 
-Theorem C19_copy_idempotent_partial : forall (fmt64 fmt32 : N -> xstring) (version : xstring),
+Theorem C19_copy_idempotent : forall (fmt64 fmt32 : N -> xstring) (version : xstring),
   (forall b, fmt64 (canon64 b) = fmt64 b) -> (forall b, fmt32 (canon32 b) = fmt32 b) ->
   forall guid tops s st rs,
-  units tops -> Forall not_im tops -> Forall call_wf tops ->
-  (forall g proto, In (AddPointcloud g proto) tops -> proto_canonical proto) ->
+  units tops -> Forall call_wf tops ->
+  (forall g proto, In (AddPointcloud g proto) tops -> scaled_canonical proto) ->
   acceptable_calls (gen_xml_full fmt64 fmt32) (lib_version_text version) ws_init ls_init
     (NewWriter guid :: tops ++ [Finalize]) ->
   wrun (writer_run fmt64 fmt32 version (NewWriter guid :: tops ++ [Finalize])) pw0 = (s, Ok (st, rs)) ->
   forall is os bl, explains tops is os (ws_pcs st) (ws_imgs st) bl ->
   let m' := reader_view (fill_meta fmt64 fmt32 (ws_meta st)) in
-  let tops2 := copy_tops m' (item_points is) in
-  let P2 := copy_calls m' (item_points is) in
+  let gs := program_image_bytes (lib_version_text version) (NewWriter guid :: tops ++ [Finalize]) in
+  let tops2 := copy_tops m' (item_points is) gs in
+  let P2 := copy_calls m' (item_points is) gs in
   P2 = NewWriter (rt_guid (ws_root st)) :: tops2 ++ [Finalize] /\
-  units tops2 /\ Forall not_im tops2 /\ Forall call_wf tops2 /\
+  units tops2 /\ Forall call_wf tops2 /\
+  Forall2 (fun im g => ghost_ok (im_no_off im) g) (ws_imgs st) gs /\
   acceptable_calls (gen_xml_full fmt64 fmt32) (lib_version_text version) ws_init ls_init P2 /\
   exists s2 st2 rs2,
     wrun (writer_run fmt64 fmt32 version P2) pw0 = (s2, Ok (st2, rs2)) /\ Forall res_ok rs2 /\
     content_view fmt64 fmt32 st2 = content_view fmt64 fmt32 st /\
     forall is2 os2 bl2, explains tops2 is2 os2 (ws_pcs st2) (ws_imgs st2) bl2 ->
-      item_pcs is2 = item_pcs is /\
-      copy_calls (reader_view (fill_meta fmt64 fmt32 (ws_meta st2))) (item_points is2) = P2.
-Proof. exact copy_idempotent_partial. Qed.
+      item_pcs is2 = item_pcs is /\ program_image_bytes (lib_version_text version) P2 = gs /\
+      copy_calls (reader_view (fill_meta fmt64 fmt32 (ws_meta st2))) (item_points is2)
+                 (program_image_bytes (lib_version_text version) P2) = P2.
+Proof. exact copy_idempotent. Qed.
 
 (** ... and reading the copy: with the float oracles of the read-back and strings / limits inside
     its quantifier ([call_ok]; the copy's calls inherit it: [copy_calls_ok]), the copy's file opens,
     its XML extracts to the copy's metadata (= the original's up to file offsets), and its items -
-    the original's point cloud types and points - are read back exactly. *)
-Theorem C19_copy_reads_back_partial : forall (fmt64 fmt32 : N -> xstring) (pf64 pf32 : xstr -> option N)
+    the original's point cloud types and points, the image blobs - are read back exactly. *)
+Theorem C19_copy_reads_back : forall (fmt64 fmt32 : N -> xstring) (pf64 pf32 : xstr -> option N)
     (fdiv : N -> Z -> N) (version : xstring),
   (forall b, plain_text (fmt64 b) = true) -> (forall b, plain_text (fmt32 b) = true) ->
   (forall b, pf64 (fmt64 b) = Some (canon64 b)) -> (forall b, pf32 (fmt32 b) = Some (canon32 b)) ->
   string_ok (lib_version_text version) = true ->
   (forall b, fmt64 (canon64 b) = fmt64 b) -> (forall b, fmt32 (canon32 b) = fmt32 b) ->
   forall guid tops s st rs,
-  units tops -> Forall not_im tops ->
+  units tops ->
   Forall call_ok (NewWriter guid :: tops ++ [Finalize]) ->
-  (forall g proto, In (AddPointcloud g proto) tops -> proto_canonical proto) ->
+  (forall g proto, In (AddPointcloud g proto) tops -> scaled_canonical proto) ->
   acceptable_calls (gen_xml_full fmt64 fmt32) (lib_version_text version) ws_init ls_init
     (NewWriter guid :: tops ++ [Finalize]) ->
   wrun (writer_run fmt64 fmt32 version (NewWriter guid :: tops ++ [Finalize])) pw0 = (s, Ok (st, rs)) ->
   forall is os bl, explains tops is os (ws_pcs st) (ws_imgs st) bl ->
   let m' := reader_view (fill_meta fmt64 fmt32 (ws_meta st)) in
-  let tops2 := copy_tops m' (item_points is) in
-  let P2 := copy_calls m' (item_points is) in
+  let gs := program_image_bytes (lib_version_text version) (NewWriter guid :: tops ++ [Finalize]) in
+  let tops2 := copy_tops m' (item_points is) gs in
+  let P2 := copy_calls m' (item_points is) gs in
   exists s2 st2 rs2,
     wrun (writer_run fmt64 fmt32 version P2) pw0 = (s2, Ok (st2, rs2)) /\ Forall res_ok rs2 /\
     content_view fmt64 fmt32 st2 = content_view fmt64 fmt32 st /\
@@ -111,17 +125,44 @@ Theorem C19_copy_reads_back_partial : forall (fmt64 fmt32 : N -> xstring) (pf64 
      len (d_bytes (pw_dev (fst (pw_flush s2)))) < 2 ^ 64 ->
      exists is2 os2 xml2 bl2,
        explains tops2 is2 os2 (ws_pcs st2) (ws_imgs st2) bl2 /\
-       item_pcs is2 = item_pcs is /\
-       copy_calls (reader_view (fill_meta fmt64 fmt32 (ws_meta st2))) (item_points is2) = P2 /\
+       item_pcs is2 = item_pcs is /\ program_image_bytes (lib_version_text version) P2 = gs /\
+       copy_calls (reader_view (fill_meta fmt64 fmt32 (ws_meta st2))) (item_points is2)
+                  (program_image_bytes (lib_version_text version) P2) = P2 /\
        let f := d_bytes (pw_dev (fst (pw_flush s2))) in
        all_pages_valid f = true /\
        exists rs0 h d',
          reader_open (dev_init f None) = (d', Ok (rs0, h, xml2)) /\
          read_meta pf64 pf32 fdiv xml2 = Ok (reader_view (fill_meta fmt64 fmt32 (ws_meta st2))) /\
          Forall2 (reads_back rs0) is2 os2).
-Proof. exact copy_reads_back_partial. Qed.
+Proof. exact copy_reads_back. Qed.
+
+(** The image bytes of the copy theorems are what the reader returns.  Whenever every call of a
+    complete program returned Ok, the program wrote [file_prog is xml] ([explains] ties items and
+    calls), and for every finished image the bytes [program_image_bytes] gives for its visual
+    reference and projection (data and mask) are the data of the blob items published at exactly
+    the offsets and lengths the image declares ([bytes_in]: membership in the item / output pairs). *)
+Theorem C19_copy_image_bytes : forall (fmt64 fmt32 : N -> xstring) (version : xstring) guid tops l st rs,
+  units tops -> Forall call_wf tops ->
+  wrun_spec (writer_run fmt64 fmt32 version (NewWriter guid :: tops ++ [Finalize])) ls_init = (l, Ok (st, rs)) ->
+  Forall res_ok rs ->
+  exists is os xml bl,
+    explains tops is os (ws_pcs st) (ws_imgs st) bl /\
+    wrun_spec (file_prog is xml) ls_init = (l, Ok os) /\
+    Forall2 (fun im g => bytes_in (combine is os) im g) (ws_imgs st)
+            (program_image_bytes (lib_version_text version) (NewWriter guid :: tops ++ [Finalize])).
+Proof. exact image_bytes_in_items. Qed.
+
+(** ... and a blob among these pairs is read back by [blob_read] through its descriptor, from every
+    state the opened reader can be in ([reads_back] as in [C10_accepted_reads_back]). *)
+Theorem C19_blob_in_reads : forall rs0 is os, Forall2 (reads_back rs0) is os ->
+  forall b d, blob_in (combine is os) b d ->
+  b_length b = len d /\
+  forall ops, snd (rrun (blob_read (pr_log_size rs0) (b_offset b) (b_length b)) (fst (pr_run ops rs0))) = Ok d.
+Proof. exact blob_in_reads. Qed.
 
 Print Assumptions C19_copy_binary.
 Print Assumptions C19_image_stable.
-Print Assumptions C19_copy_idempotent_partial.
-Print Assumptions C19_copy_reads_back_partial.
+Print Assumptions C19_copy_idempotent.
+Print Assumptions C19_copy_reads_back.
+Print Assumptions C19_copy_image_bytes.
+Print Assumptions C19_blob_in_reads.
